@@ -2998,4 +2998,955 @@ theorem dry_run_one_block (g : Graph) (d : Nat → Nat) (hr : Ranked g d) (hsym 
   exact ⟨s', evs', h1, h2⟩
 
 
+
+/-! ## lazily expanded graphs: the postponement phase -/
+
+/-! ### the pick takes a least key -/
+
+theorem keyLe_refl (a : Nat × Nat × Nat) : keyLe a a = true := by
+  simp [keyLe]
+
+theorem keyLe_total (a b : Nat × Nat × Nat) : keyLe a b = true ∨ keyLe b a = true := by
+  simp only [keyLe, Bool.or_eq_true, Bool.and_eq_true, decide_eq_true_eq, beq_iff_eq]
+  omega
+
+theorem keyLe_trans (a b c : Nat × Nat × Nat) (h1 : keyLe a b = true) (h2 : keyLe b c = true) : keyLe a c = true := by
+  simp only [keyLe, Bool.or_eq_true, Bool.and_eq_true, decide_eq_true_eq, beq_iff_eq] at *
+  omega
+
+theorem stableSort_head_min (le : Nat → Nat → Bool) (hrefl : ∀ a, le a a = true)
+    (htot : ∀ a b, le a b = true ∨ le b a = true) (htr : ∀ a b c, le a b = true → le b c = true → le a c = true)
+    (l : List Nat) : ∀ h t, stableSort le l = h :: t → ∀ x, x ∈ l → le h x = true := by
+  induction l with
+  | nil => intro h t hs; simp [stableSort] at hs
+  | cons a r ih =>
+    intro h t hs x hx
+    unfold stableSort at hs ih
+    simp only [List.foldr_cons] at hs
+    generalize hsr : List.foldr (fun a acc => insertBy le a acc) [] r = sr at hs ih
+    cases sr with
+    | nil =>
+      simp only [insertBy, List.cons.injEq] at hs
+      have hr : r = [] := by
+        have := stableSort_length le r
+        unfold stableSort at this
+        rw [hsr] at this
+        exact List.length_eq_zero_iff.mp this.symm
+      rw [hr] at hx
+      simp only [List.mem_singleton] at hx
+      rw [← hs.1, hx]; exact hrefl a
+    | cons b t' =>
+      have hb : ∀ y, y ∈ r → le b y = true := ih b t' rfl
+      unfold insertBy at hs
+      split at hs
+      · rename_i hab
+        simp only [List.cons.injEq] at hs
+        rw [← hs.1]
+        rcases List.mem_cons.mp hx with hx | hx
+        · rw [hx]; exact hrefl a
+        · exact htr a b x hab (hb x hx)
+      · rename_i hab
+        simp only [List.cons.injEq] at hs
+        rw [← hs.1]
+        rcases List.mem_cons.mp hx with hx | hx
+        · rw [hx]
+          rcases htot a b with h1 | h1
+          · exact absurd h1 hab
+          · exact h1
+        · exact hb x hx
+
+/-- the child picked has a least key among the available ones -/
+theorem pickChild_min (gv : Graph) (s : State) (n w c : Nat) (s' : State) (h : pickChild gv s n w = some (c, s'))
+    (f : Nat) (hf : f ∈ (gv.node n).cleanup.map (·.1)) (hrel : relevant gv w f = true)
+    (hnd : (regWorkers (s.cr (gv.node n).cls).droppedCleanup (some (gv.node f).cls)).contains w = false) :
+    keyLe (pickKey gv s false c) (pickKey gv s false f) = true := by
+  unfold pickChild at h
+  dsimp only at h
+  split at h
+  · simp at h
+  · rename_i d r hs
+    simp only [Option.some.injEq, Prod.mk.injEq] at h
+    rw [← h.1]
+    refine stableSort_head_min (fun a b => keyLe (pickKey gv s false a) (pickKey gv s false b))
+      (fun a => keyLe_refl _) (fun a b => keyLe_total _ _) (fun a b c => keyLe_trans _ _ _) _ d r hs f ?_
+    rw [List.mem_filter]
+    exact ⟨hf, by rw [hrel, hnd]; rfl⟩
+
+/-- among flat candidates: the picked child is flat and was picked no more often -/
+theorem pickKey_flat_le (gv : Graph) (s : State) (c f : Nat) (hf : (gv.node f).flat = true)
+    (h : keyLe (pickKey gv s false c) (pickKey gv s false f) = true) :
+    (gv.node c).flat = true ∧ picks s (gv.node c).cls ≤ picks s (gv.node f).cls := by
+  unfold pickKey at h
+  simp only [hf, if_true, Bool.false_eq_true, if_false] at h
+  unfold picks
+  cases hc : (gv.node c).flat
+  · simp [keyLe, hc] at h
+  · simp only [keyLe, hc, if_true, Bool.or_eq_true, Bool.and_eq_true, decide_eq_true_eq, beq_iff_eq] at h
+    refine ⟨rfl, ?_⟩
+    omega
+
+
+/-! ### the expansion step unrolls the node at hand -/
+
+/-- the children of a flat node are the composite tests it stands for (`self.setless_form in node.id`) -/
+def FlatKidsOK (g : Graph) : Prop :=
+  ∀ f c, (g.node f).flat = true → c ∈ (g.node f).cleanup.map (·.1) → strIn (g.node f).setless (g.nodeId c) = true
+
+theorem closeUp_sub (g : Graph) (fuel : Nat) (acc : List Nat) (x : Nat) (h : x ∈ acc) : x ∈ closeUp g fuel acc := by
+  induction fuel generalizing acc with
+  | zero => exact h
+  | succ k ih =>
+    unfold closeUp
+    dsimp only
+    split
+    · exact h
+    · exact ih _ (List.mem_append_left _ h)
+
+theorem vis_nodeId (g : Graph) (s : State) (c : Nat) : (vis g s).nodeId c = g.nodeId c := by
+  obtain ⟨a, b, h1⟩ := vis_node g s c
+  unfold Graph.nodeId; rw [h1]
+
+theorem contains_filter_of_not_mem (l : List Nat) (P : Nat → Bool) (x : Nat) (h : l.contains x = false) :
+    (l.filter P).contains x = false := by
+  cases hx : (l.filter P).contains x
+  · rfl
+  · rw [List.contains_iff_mem, List.mem_filter] at hx
+    have : l.contains x = true := List.contains_iff_mem.mpr hx.1
+    rw [h] at this; cases this
+
+theorem contains_filter_of_neg (l : List Nat) (P : Nat → Bool) (x : Nat) (h : P x = false) :
+    (l.filter P).contains x = false := by
+  cases hx : (l.filter P).contains x
+  · rfl
+  · rw [List.contains_iff_mem, List.mem_filter] at hx
+    rw [h] at hx; cases hx.2
+
+theorem reveal_explores (g : Graph) (hk : FlatKidsOK g) (s : State) (f w : Nat) (hf : (g.node f).flat = true)
+    (hfh : s.hidden.contains f = false) :
+    isUnrolled (vis g (reveal g s f w)) (reveal g s f w) f none = true := by
+  obtain ⟨su, cl, hv⟩ := vis_node g (reveal g s f w) f
+  have hsl : ((vis g (reveal g s f w)).node f).setless = (g.node f).setless := by rw [hv]
+  have hsr : ((vis g (reveal g s f w)).node f).sharedRoot = (g.node f).sharedRoot := by rw [hv]
+  unfold isUnrolled
+  rw [hsr, hsl]
+  by_cases hr : (g.node f).sharedRoot = true
+  · simp only [hr, if_true]
+  · simp only [hr, Bool.false_eq_true, if_false, Bool.or_eq_true, List.any_eq_true, Bool.not_eq_true',
+      List.isEmpty_eq_false_iff_exists_mem]
+    by_cases hl : (((g.node f).cleanup.map (·.1)).filter (fun c => (g.node c).owner == some w)).isEmpty = true
+    · left
+      refine ⟨(f, w), ?_, by simp⟩
+      unfold reveal
+      simp only [hl, if_true]
+      exact List.mem_append_right _ List.mem_cons_self
+    · right
+      obtain ⟨c, hc⟩ := List.isEmpty_eq_false_iff_exists_mem.mp (Bool.not_eq_true _ ▸ hl)
+      have hcm : c ∈ (g.node f).cleanup.map (·.1) := (List.mem_filter.mp hc).1
+      refine ⟨c, ?_⟩
+      rw [List.mem_filter]
+      refine ⟨?_, by rw [vis_nodeId]; exact hk f c hf hcm⟩
+      obtain ⟨e, he, hec⟩ := List.mem_map.mp hcm
+      refine List.mem_map.mpr ⟨e, ((mem_vis_edges g _ f e).2).mpr ⟨he, ?_, ?_⟩, hec⟩
+      · unfold reveal
+        simp only [hl, Bool.false_eq_true, if_false]
+        exact contains_filter_of_not_mem _ _ f hfh
+      · unfold reveal
+        simp only [hl, Bool.false_eq_true, if_false]
+        apply contains_filter_of_neg
+        rw [hec]
+        have h3 := closeUp_sub g g.nodes.length _ c hc
+        simp only [Bool.not_eq_eq_eq_not, Bool.not_false, List.contains_iff_mem]
+        exact h3
+
+
+theorem isUnrolled_some_none (gv : Graph) (s : State) (f w : Nat) (h : isUnrolled gv s f (some w) = true) :
+    isUnrolled gv s f none = true := by
+  unfold isUnrolled at h ⊢
+  split
+  · rfl
+  · rename_i hr
+    simp only [hr, Bool.false_eq_true, if_false, Bool.or_eq_true, List.contains_iff_mem, List.any_eq_true] at h
+    simp only [Bool.or_eq_true, List.any_eq_true, Bool.not_eq_true', List.isEmpty_eq_false_iff_exists_mem]
+    rcases h with h | ⟨c, hc, _⟩
+    · exact Or.inl ⟨(f, w), h, by simp⟩
+    · exact Or.inr ⟨c, hc⟩
+
+/-- is the flat node `f` unexplored (not unrolled for any worker, not known to be incompatible) -/
+def unexpl (g : Graph) (s : State) (f : Nat) : Bool := (g.node f).flat && !isUnrolled (vis g s) s f none
+
+theorem unexploredNodes_eq (g : Graph) (s : State) :
+    unexploredNodes (vis g s) s = (List.range g.nodes.length).filter (unexpl g s) := by
+  unfold unexploredNodes
+  rw [(sameStatic_vis g s).len]
+  congr 1
+  funext n
+  unfold unexpl
+  rw [vis_flat]
+
+/-- the number of unexplored flat nodes -/
+def nU (g : Graph) (s : State) : Nat := (unexploredNodes (vis g s) s).length
+
+theorem unexpl_mono (g : Graph) (s s' : State) (hh : ∀ x, x ∈ s'.hidden → x ∈ s.hidden)
+    (hi : ∀ x, x ∈ s.incompatible → x ∈ s'.incompatible) (f : Nat) (h : unexpl g s' f = true) : unexpl g s f = true := by
+  unfold unexpl at h ⊢
+  simp only [Bool.and_eq_true, Bool.not_eq_true'] at h ⊢
+  refine ⟨h.1, ?_⟩
+  cases hu : isUnrolled (vis g s) s f none
+  · rfl
+  · rw [isUnrolled_none_mono g s s' hh hi f hu] at h
+    cases h.2
+
+theorem filter_length_le (l : List Nat) (p q : Nat → Bool) (h : ∀ x, x ∈ l → p x = true → q x = true) :
+    (l.filter p).length ≤ (l.filter q).length := by
+  induction l with
+  | nil => simp
+  | cons a r ih =>
+    have ih' := ih (fun x hx => h x (List.mem_cons_of_mem _ hx))
+    simp only [List.filter_cons]
+    cases hp : p a
+    · simp only [Bool.false_eq_true, if_false]
+      cases hq : q a
+      · simp only [Bool.false_eq_true, if_false]; exact ih'
+      · simp only [if_true, List.length_cons]; omega
+    · have := h a List.mem_cons_self hp
+      simp only [this, if_true, List.length_cons]
+      omega
+
+theorem filter_length_lt (l : List Nat) (p q : Nat → Bool) (h : ∀ x, x ∈ l → p x = true → q x = true)
+    (a : Nat) (ha : a ∈ l) (hq : q a = true) (hp : p a = false) : (l.filter p).length < (l.filter q).length := by
+  induction l with
+  | nil => simp at ha
+  | cons b r ih =>
+    simp only [List.filter_cons]
+    rcases List.mem_cons.mp ha with hab | har
+    · subst hab
+      have := filter_length_le r p q (fun x hx => h x (List.mem_cons_of_mem _ hx))
+      simp only [hp, hq, Bool.false_eq_true, if_false, if_true, List.length_cons]
+      omega
+    · have ih' := ih (fun x hx => h x (List.mem_cons_of_mem _ hx)) har
+      cases hpb : p b
+      · simp only [Bool.false_eq_true, if_false]
+        cases hqb : q b
+        · simp only [Bool.false_eq_true, if_false]; exact ih'
+        · simp only [if_true, List.length_cons]; omega
+      · have := h b List.mem_cons_self hpb
+        simp only [this, if_true, List.length_cons]
+        omega
+
+theorem nU_mono (g : Graph) (s s' : State) (hh : ∀ x, x ∈ s'.hidden → x ∈ s.hidden)
+    (hi : ∀ x, x ∈ s.incompatible → x ∈ s'.incompatible) : nU g s' ≤ nU g s := by
+  unfold nU
+  rw [unexploredNodes_eq, unexploredNodes_eq]
+  exact filter_length_le _ _ _ (fun x _ => unexpl_mono g s s' hh hi x)
+
+theorem nU_lt (g : Graph) (s s' : State) (hh : ∀ x, x ∈ s'.hidden → x ∈ s.hidden)
+    (hi : ∀ x, x ∈ s.incompatible → x ∈ s'.incompatible) (f : Nat) (hf : f < g.nodes.length)
+    (h1 : unexpl g s f = true) (h2 : unexpl g s' f = false) : nU g s' < nU g s := by
+  unfold nU
+  rw [unexploredNodes_eq, unexploredNodes_eq]
+  exact filter_length_lt _ _ _ (fun x _ => unexpl_mono g s s' hh hi x) f (List.mem_range.mpr hf) h1 h2
+
+theorem nU_pos_of (g : Graph) (s : State) (f : Nat) (hf : f < g.nodes.length) (h : unexpl g s f = true) : 0 < nU g s := by
+  unfold nU
+  rw [unexploredNodes_eq]
+  exact List.length_pos_of_mem (List.mem_filter.mpr ⟨List.mem_range.mpr hf, h⟩)
+
+theorem nU_congr (g : Graph) (s s' : State) (hh : s'.hidden = s.hidden) (hi : s'.incompatible = s.incompatible) :
+    nU g s' = nU g s := by
+  unfold nU unexploredNodes isUnrolled
+  rw [vis_congr g s s' hh, hi]
+
+theorem unexpl_congr (g : Graph) (s s' : State) (hh : s'.hidden = s.hidden) (hi : s'.incompatible = s.incompatible) (f : Nat) :
+    unexpl g s' f = unexpl g s f := by
+  unfold unexpl isUnrolled
+  rw [vis_congr g s s' hh, hi]
+
+/-- the expansion step in general -/
+theorem prepare_lazy (g : Graph) (hk : FlatKidsOK g) (s : State) (w : Nat) (hw : w < s.workers.length)
+    (hne : (s.wd w).path ≠ []) :
+    (prepare g s w).regs = s.regs ∧ (prepare g s w).nodes = s.nodes ∧
+    (prepare g s w).workers.length = s.workers.length ∧
+    (∀ v, ((prepare g s w).wd v).path = (s.wd v).path) ∧
+    ((prepare g s w).wd w).unexplored = !(unexploredNodes (vis g s) s).isEmpty ∧
+    (∀ x, x ∈ (prepare g s w).hidden → x ∈ s.hidden) ∧
+    (∀ x, x ∈ s.incompatible → x ∈ (prepare g s w).incompatible) ∧
+    (∀ f, (s.wd w).path.getLast? = some f → f < g.nodes.length → unexpl g s f = true → s.hidden.contains f = false →
+      unexpl g (prepare g s w) f = false) := by
+  obtain ⟨a, b, _⟩ := prepare_loc g s w
+  obtain ⟨_, f2, f3, _⟩ := prepare_frame g s w
+  have hregs : (prepare g s w).regs = s.regs := by
+    unfold prepare
+    dsimp only
+    split
+    · rfl
+    · split
+      · unfold reveal; dsimp only; split <;> rfl
+      · rfl
+  refine ⟨hregs, (prepare_frame g s w).1, f2, fun v => (f3 v).1, ?_, a.hiddenSub, a.incSub, ?_⟩
+  · unfold prepare
+    dsimp only
+    cases hl : (s.wd w).path.getLast? with
+    | none => rw [List.getLast?_eq_none_iff] at hl; exact absurd hl hne
+    | some next =>
+      dsimp only
+      split
+      · have : ∀ (sx : State) (f : Nat), (reveal g sx f w).workers = sx.workers := fun sx f => (reveal_frame g sx f w).2.1
+        unfold State.wd
+        rw [this]
+        exact congrArg (·.unexplored) (wd_setWd_eq s w _ hw)
+      · exact congrArg (·.unexplored) (wd_setWd_eq s w _ hw)
+  · intro f hl hfN hun hfh
+    have hflat : (g.node f).flat = true := by
+      unfold unexpl at hun; simp only [Bool.and_eq_true] at hun; exact hun.1
+    have hnone : isUnrolled (vis g s) s f none = false := by
+      unfold unexpl at hun; simp only [Bool.and_eq_true, Bool.not_eq_true'] at hun; exact hun.2
+    have hunexp : (!(unexploredNodes (vis g s) s).isEmpty) = true := by
+      have := nU_pos_of g s f hfN hun
+      unfold nU at this
+      cases hq : unexploredNodes (vis g s) s with
+      | nil => rw [hq] at this; simp at this
+      | cons _ _ => rfl
+    unfold prepare
+    dsimp only
+    rw [hl]
+    dsimp only
+    have hsome : isUnrolled (vis g s) (s.setWd w (fun d => { d with unexplored := !(unexploredNodes (vis g s) s).isEmpty })) f (some w) = false := by
+      cases hx : isUnrolled (vis g s) (s.setWd w (fun d => { d with unexplored := !(unexploredNodes (vis g s) s).isEmpty })) f (some w)
+      · rfl
+      · have := isUnrolled_some_none _ _ f w hx
+        have h2 : isUnrolled (vis g s) (s.setWd w (fun d => { d with unexplored := !(unexploredNodes (vis g s) s).isEmpty })) f none =
+            isUnrolled (vis g s) s f none := rfl
+        rw [h2, hnone] at this; cases this
+    rw [vis_flat, hflat, hsome, hunexp]
+    simp only [Bool.not_false, Bool.and_self, Bool.true_or, if_true]
+    unfold unexpl
+    have := reveal_explores g hk (s.setWd w (fun d => { d with unexplored := true })) f w hflat hfh
+    rw [this]
+    simp
+
+
+/-! ### the measure for lazily expanded graphs -/
+
+/-- static well-formedness of a lazily expanded graph: the children of a flat node are its composite tests, every
+flat node hangs below the shared root, no other node shares the class of a flat node -/
+structure LazyOK (g : Graph) : Prop where
+  kids : FlatKidsOK g
+  underRoot : ∀ f, f < g.nodes.length → (g.node f).flat = true → (g.node f).sharedRoot = false →
+    f ∈ (g.node g.root).cleanup.map (·.1)
+  clsUniq : ∀ f m, f < g.nodes.length → m < g.nodes.length → (g.node f).flat = true →
+    (g.node m).cls = (g.node f).cls → m = f
+
+theorem unexpl_flat (g : Graph) (s : State) (f : Nat) (h : unexpl g s f = true) :
+    (g.node f).flat = true ∧ (g.node f).sharedRoot = false := by
+  unfold unexpl at h
+  simp only [Bool.and_eq_true, Bool.not_eq_true'] at h
+  refine ⟨h.1, ?_⟩
+  cases hr : (g.node f).sharedRoot
+  · rfl
+  · have h2 := h.2
+    unfold isUnrolled at h2
+    obtain ⟨su, cl, hv⟩ := vis_node g s f
+    rw [hv] at h2
+    simp [hr] at h2
+
+/-- the last node of the path -/
+def top (s : State) (w : Nat) : Nat := ((s.wd w).path.getLast?).getD 0
+
+/-- the last node of the path is an unexplored flat node that the next expansion step will unroll -/
+def pendB (g : Graph) (s : State) (w : Nat) : Bool :=
+  decide (2 ≤ (s.wd w).path.length) && (decide (top s w < g.nodes.length) && unexpl g s (top s w))
+
+def pend (g : Graph) (s : State) (w : Nat) : Nat := if pendB g s w then 1 else 0
+
+def rootKids (g : Graph) : List Nat := (g.node g.root).cleanup.map (·.1)
+
+/-- room left in the pick counters of the flat children of the root below the level `P` -/
+def psi (g : Graph) (s : State) (P : Nat) : Nat :=
+  ((rootKids g).map (fun c => if (g.node c).flat then P - picks s (g.node c).cls else 0)).sum
+
+def chi (g : Graph) (s : State) (w : Nat) : Nat := if 0 < nU g s ∧ (s.wd w).path ≠ [g.root] then 1 else 0
+
+/-- the measure: unexplored nodes (counted twice, minus one when the exploration is imminent), room in the pick
+counters, "not at the root", and the measure `phi` of the eager case -/
+def mu (g : Graph) (s : State) (w P : Nat) : Nat :=
+  (((2 * nU g s - pend g s w) * ((rootKids g).length * P + 1) + psi g s P) * 2 + chi g s w) * bound g + phi g s w
+
+theorem radix_lt (Q a a' b b' : Nat) (hb' : b' < Q) (h : a' < a ∨ (a' = a ∧ b' < b)) : a' * Q + b' < a * Q + b := by
+  rcases h with h | ⟨h1, h2⟩
+  · have h3 : (a' + 1) * Q ≤ a * Q := Nat.mul_le_mul_right Q (by omega)
+    rw [Nat.add_mul, Nat.one_mul] at h3
+    omega
+  · subst h1; omega
+
+/-- lexicographic decrease of the four components lowers the measure -/
+theorem lex4_lt (Q B A A' p p' c c' f f' : Nat) (hp' : p' < Q) (hc' : c' < 2) (hf' : f' < B)
+    (hA : A' ≤ A) (hp : A' = A → p' ≤ p) (hc : A' = A → p' = p → c' ≤ c) (hf : A' = A → p' = p → c' = c → f' < f) :
+    ((A' * Q + p') * 2 + c') * B + f' < ((A * Q + p) * 2 + c) * B + f := by
+  have lvl1 : A' * Q + p' < A * Q + p ∨ (A' * Q + p' = A * Q + p ∧ A' = A ∧ p' = p) := by
+    by_cases h1 : A' < A
+    · exact Or.inl (radix_lt Q A A' p p' hp' (Or.inl h1))
+    · have h2 : A' = A := by omega
+      by_cases h3 : p' < p
+      · exact Or.inl (radix_lt Q A A' p p' hp' (Or.inr ⟨h2, h3⟩))
+      · have := hp h2
+        have h4 : p' = p := by omega
+        right; rw [h2, h4]; exact ⟨rfl, rfl, rfl⟩
+  have lvl2 : (A' * Q + p') * 2 + c' < (A * Q + p) * 2 + c ∨
+      ((A' * Q + p') * 2 + c' = (A * Q + p) * 2 + c ∧ A' = A ∧ p' = p ∧ c' = c) := by
+    rcases lvl1 with h | ⟨h, h2, h4⟩
+    · exact Or.inl (radix_lt 2 _ _ c c' hc' (Or.inl h))
+    · by_cases h5 : c' < c
+      · exact Or.inl (radix_lt 2 _ _ c c' hc' (Or.inr ⟨h, h5⟩))
+      · have := hc h2 h4
+        have h6 : c' = c := by omega
+        right; rw [h, h6]; exact ⟨rfl, h2, h4, rfl⟩
+  rcases lvl2 with h | ⟨h, h2, h4, h6⟩
+  · exact radix_lt B _ _ f f' hf' (Or.inl h)
+  · exact radix_lt B _ _ f f' hf' (Or.inr ⟨h, hf h2 h4 h6⟩)
+
+theorem sum_map_le (l : List Nat) (F G : Nat → Nat) (h : ∀ x, x ∈ l → F x ≤ G x) : (l.map F).sum ≤ (l.map G).sum := by
+  induction l with
+  | nil => simp
+  | cons a r ih =>
+    simp only [List.map_cons, List.sum_cons]
+    have := h a List.mem_cons_self
+    have := ih (fun x hx => h x (List.mem_cons_of_mem _ hx))
+    omega
+
+theorem sum_map_lt (l : List Nat) (F G : Nat → Nat) (h : ∀ x, x ∈ l → F x ≤ G x) (a : Nat) (ha : a ∈ l)
+    (hlt : F a < G a) : (l.map F).sum < (l.map G).sum := by
+  induction l with
+  | nil => simp at ha
+  | cons b r ih =>
+    simp only [List.map_cons, List.sum_cons]
+    rcases List.mem_cons.mp ha with hab | har
+    · subst hab
+      have := sum_map_le r F G (fun x hx => h x (List.mem_cons_of_mem _ hx))
+      omega
+    · have := h b List.mem_cons_self
+      have := ih (fun x hx => h x (List.mem_cons_of_mem _ hx)) har
+      omega
+
+theorem psi_le (g : Graph) (s : State) (P : Nat) : psi g s P ≤ (rootKids g).length * P := by
+  unfold psi
+  induction rootKids g with
+  | nil => simp
+  | cons a r ih =>
+    simp only [List.map_cons, List.sum_cons, List.length_cons, Nat.add_mul, Nat.one_mul]
+    split <;> omega
+
+/-- the pick counters only grow: the room shrinks -/
+theorem psi_mono (g : Graph) (s s' : State) (P : Nat) (h : ∀ c, picks s c ≤ picks s' c) : psi g s' P ≤ psi g s P := by
+  unfold psi
+  apply sum_map_le
+  intro x _
+  split
+  · have := h (g.node x).cls; omega
+  · exact Nat.le_refl _
+
+theorem psi_congr (g : Graph) (s s' : State) (P : Nat) (h : ∀ c, picks s' c = picks s c) : psi g s' P = psi g s P := by
+  unfold psi
+  congr 1
+  apply List.map_congr_left
+  intro x _
+  rw [h]
+
+/-- a pick of a flat child of the root below the level takes room away -/
+theorem psi_pick (g : Graph) (s s' : State) (P c : Nat) (hc : c ∈ rootKids g) (hf : (g.node c).flat = true)
+    (hlow : picks s (g.node c).cls < P)
+    (h : ∀ c', picks s' c' = picks s c' + (if c' = (g.node c).cls then 1 else 0)) : psi g s' P < psi g s P := by
+  unfold psi
+  apply sum_map_lt _ _ _ _ c hc
+  · simp only [hf, if_true]
+    rw [h]; simp only [if_true]; omega
+  · intro x _
+    split
+    · rw [h]; split <;> omega
+    · exact Nat.le_refl _
+
+theorem chi_le (g : Graph) (s : State) (w : Nat) : chi g s w < 2 := by
+  unfold chi; split <;> omega
+
+
+/-! ### the invariant of the postponement phase -/
+
+/-- the state hypotheses for lazily expanded graphs; `P` is a level above the pick counters of all unexplored nodes
+at the start of the block -/
+structure LInv (g : Graph) (d : Nat → Nat) (w P : Nat) (s : State) : Prop where
+  nodesLen : s.nodes.length = g.nodes.length
+  cls : ClsOK g s
+  walk : Walk g d (s.wd w).path
+  head : (s.wd w).path.head? = some g.root
+  vroot : s.hidden.contains g.root = false
+  vflat : ∀ f, (g.node f).flat = true → s.hidden.contains f = false
+  avail : ∀ f, f < g.nodes.length → unexpl g s f = true →
+    dropped s w (false, (g.node g.root).cls, (g.node f).cls) = false
+  low : ∀ f, f < g.nodes.length → unexpl g s f = true →
+    picks s (g.node f).cls < P ∨ (2 ≤ (s.wd w).path.length ∧ top s w = f)
+
+theorem top_of_last (s : State) (w next : Nat) (hl : (s.wd w).path.getLast? = some next) : top s w = next := by
+  unfold top; rw [hl]; rfl
+
+theorem last_of_top (s : State) (w : Nat) (hne : (s.wd w).path ≠ []) : (s.wd w).path.getLast? = some (top s w) := by
+  unfold top
+  cases hl : (s.wd w).path.getLast? with
+  | none => rw [List.getLast?_eq_none_iff] at hl; exact absurd hl hne
+  | some x => rfl
+
+theorem pendB_false_of_len (g : Graph) (s : State) (w : Nat) (h : (s.wd w).path.length < 2) : pendB g s w = false := by
+  unfold pendB
+  have : decide (2 ≤ (s.wd w).path.length) = false := by simp; omega
+  rw [this]; rfl
+
+theorem nU_pos_of_pend (g : Graph) (s : State) (w : Nat) (h : pendB g s w = true) : 0 < nU g s := by
+  unfold pendB at h
+  simp only [Bool.and_eq_true, decide_eq_true_eq] at h
+  exact nU_pos_of g s _ h.2.1 h.2.2
+
+/-- at the root the iteration is the pick of a child -/
+theorem iter_rootpick (gv : Graph) (s : State) (w next : Nat) (hl : (s.wd w).path.getLast? = some next)
+    (hlen : (s.wd w).path.length = 1) (hc : (iter gv s w).2.2 = .cont) :
+    ∃ c s3, pickChild gv s next w = some (c, s3) ∧ (iter gv s w).1 = pushPath s3 w c := by
+  unfold iter at hc ⊢
+  dsimp only at hc ⊢
+  by_cases hroot : isCleanupReady gv s gv.root w = true
+  · simp only [hroot, if_true] at hc
+    split at hc <;> cases hc
+  · simp only [hroot, Bool.false_eq_true, if_false, hl] at hc ⊢
+    have h1 : ((s.wd w).path.length == 1) = true := by simp [hlen]
+    simp only [h1, if_true] at hc ⊢
+    cases hpk : pickChild gv s next w with
+    | none => simp only [hpk] at hc; cases hc
+    | some r => exact ⟨r.1, r.2, rfl, rfl⟩
+
+/-- an unexplored flat node is offered by the root -/
+theorem unexpl_available (g : Graph) (d : Nat → Nat) (w P : Nat) (hz : LazyOK g) (s : State) (h : LInv g d w P s)
+    (f : Nat) (hf : f < g.nodes.length) (hu : unexpl g s f = true) :
+    f ∈ ((vis g s).node g.root).cleanup.map (·.1) ∧ relevant (vis g s) w f = true ∧
+    (regWorkers (s.cr ((vis g s).node g.root).cls).droppedCleanup (some ((vis g s).node f).cls)).contains w = false := by
+  obtain ⟨hflat, hsr⟩ := unexpl_flat g s f hu
+  refine ⟨?_, ?_, ?_⟩
+  · obtain ⟨e, he, hef⟩ := List.mem_map.mp (hz.underRoot f hf hflat hsr)
+    exact List.mem_map.mpr ⟨e, ((mem_vis_edges g s g.root e).2).mpr ⟨he, h.vroot, by rw [hef]; exact h.vflat f hflat⟩, hef⟩
+  · rw [vis_relevant]; unfold relevant; rw [hflat]; rfl
+  · have := h.avail f hf hu
+    unfold dropped at this
+    simp only [Bool.false_eq_true, if_false] at this
+    rw [vis_cls, vis_cls]; exact this
+
+
+theorem nU_pos_exists (g : Graph) (s : State) (h : 0 < nU g s) : ∃ f, f < g.nodes.length ∧ unexpl g s f = true := by
+  unfold nU at h
+  rw [unexploredNodes_eq] at h
+  obtain ⟨f, hf⟩ := List.exists_mem_of_length_pos h
+  rw [List.mem_filter, List.mem_range] at hf
+  exact ⟨f, hf⟩
+
+/-- one iteration proper of the postponement phase, from a state in which no exploration is imminent -/
+theorem iter_lazy (g : Graph) (d : Nat → Nat) (hr : Ranked g d) (hsym : EdgeSym g) (hz : LazyOK g) (w P : Nat)
+    (s : State) (h : LInv g d w P s) (hpend : pendB g s w = false) (hc : (iter (vis g s) s w).2.2 = .cont) :
+    Keep s (iter (vis g s) s w).1 ∧ LInv g d w P (iter (vis g s) s w).1 ∧
+    psi g (iter (vis g s) s w).1 P ≤ psi g s P ∧
+    (((s.wd w).unexplored = true ∧ 2 ≤ (s.wd w).path.length ∧ ((iter (vis g s) s w).1.wd w).path = [g.root] ∧
+        psi g (iter (vis g s) s w).1 P = psi g s P) ∨
+     (phi g (iter (vis g s) s w).1 w < phi g s w ∧
+      ((s.wd w).path.length = 1 → 0 < nU g s → psi g (iter (vis g s) s w).1 P < psi g s P))) := by
+  obtain ⟨mj, k⟩ := iter_cont2 g d hr hsym s w h.nodesLen h.cls h.walk hc
+  have hne : (s.wd w).path ≠ [] := by intro h0; have := h.head; rw [h0] at this; simp at this
+  have hw : w < s.workers.length := lt_of_path_ne_nil s w hne
+  -- the root pick
+  have rootpick : (s.wd w).path.length = 1 → 0 < nU g s → psi g (iter (vis g s) s w).1 P < psi g s P := by
+    intro hlen1 hpos
+    obtain ⟨f, hfN, hfu⟩ := nU_pos_exists g s hpos
+    have hl := last_of_top s w hne
+    have hp := rev_one _ hlen1 _ hl
+    have hroot : top s w = g.root := by
+      have := h.head; rw [hp] at this; simpa using this
+    rw [hroot] at hl
+    obtain ⟨c, s3, hpk, hs2⟩ := iter_rootpick (vis g s) s w g.root hl hlen1 hc
+    obtain ⟨ha1, ha2, ha3⟩ := unexpl_available g d w P hz s h f hfN hfu
+    have hmin := pickChild_min (vis g s) s g.root w c s3 hpk f ha1 ha2 ha3
+    obtain ⟨hflat, _⟩ := unexpl_flat g s f hfu
+    obtain ⟨hcf, hcp⟩ := pickKey_flat_le (vis g s) s c f (by rw [vis_flat]; exact hflat) hmin
+    rw [vis_flat] at hcf
+    rw [vis_cls, vis_cls] at hcp
+    obtain ⟨hcm, _, hs3⟩ := pickChild_spec _ s g.root w c s3 hpk
+    have hcg := vis_cleanup_sub g s g.root c hcm
+    have hcN : c < g.nodes.length := lt_of_setup_mem g c g.root ((hsym g.root c).mpr hcg)
+    have hlowf : picks s (g.node f).cls < P := by
+      rcases h.low f hfN hfu with h1 | h1
+      · exact h1
+      · omega
+    rw [hs2]
+    apply psi_pick g s _ P c hcg hcf (by omega)
+    intro c'
+    unfold pushPath
+    rw [picks_setWd, hs3, picks_setCr_pick s _ _ (by rw [vis_cls]; exact h.cls c hcN), vis_cls]
+  have hun : ∀ f, unexpl g (iter (vis g s) s w).1 f = unexpl g s f := fun f => unexpl_congr g s _ k.hidden k.incompatible f
+  have np : ∀ f, f < g.nodes.length → unexpl g s f = true → ¬ (2 ≤ (s.wd w).path.length ∧ top s w = f) := by
+    intro f hfN hfu ⟨h1, h2⟩
+    unfold pendB at hpend
+    rw [h2] at hpend
+    simp [h1, hfN, hfu] at hpend
+  have base : ∀ (hwalk : Walk g d ((iter (vis g s) s w).1.wd w).path)
+      (hhead : ((iter (vis g s) s w).1.wd w).path.head? = some g.root)
+      (havail : ∀ f, f < g.nodes.length → unexpl g s f = true →
+        dropped (iter (vis g s) s w).1 w (false, (g.node g.root).cls, (g.node f).cls) = false)
+      (hlow : ∀ f, f < g.nodes.length → unexpl g s f = true →
+        picks (iter (vis g s) s w).1 (g.node f).cls < P ∨
+          (2 ≤ ((iter (vis g s) s w).1.wd w).path.length ∧ top (iter (vis g s) s w).1 w = f)),
+      LInv g d w P (iter (vis g s) s w).1 := by
+    intro hwalk hhead havail hlow
+    exact ⟨k.nodesLen.trans h.nodesLen, fun n hn => by rw [k.regsLen]; exact h.cls n hn, hwalk, hhead,
+      by rw [k.hidden]; exact h.vroot, fun f hf => by rw [k.hidden]; exact h.vflat f hf,
+      fun f hfN hfu => havail f hfN (by rw [← hun]; exact hfu), fun f hfN hfu => hlow f hfN (by rw [← hun]; exact hfu)⟩
+  rcases mj with m | j
+  · -- a move
+    obtain ⟨hphi, hwalk2⟩ := move_dec g d hr hsym w s _ h.walk m
+    cases m with
+    | pushUp last c hl hp hcm hnd hD hrel hpk =>
+      refine ⟨k, base hwalk2 (by rw [hp, head?_push _ c hne]; exact h.head) (fun f hfN hfu => by rw [hD]; exact h.avail f hfN hfu) ?_,
+        by rw [psi_congr g s _ P hpk]; exact Nat.le_refl _, Or.inr ⟨hphi, rootpick⟩⟩
+      intro f hfN hfu
+      rcases h.low f hfN hfu with h1 | h1
+      · left; rw [hpk]; exact h1
+      · exact absurd h1 (np f hfN hfu)
+    | pushDown last c hl hp hcm hnd hmode hD hrel hpk =>
+      have hcN : c < g.nodes.length := lt_of_setup_mem g c last ((hsym last c).mpr hcm)
+      refine ⟨k, base hwalk2 (by rw [hp, head?_push _ c hne]; exact h.head) (fun f hfN hfu => by rw [hD]; exact h.avail f hfN hfu) ?_,
+        psi_mono g s _ P (fun c' => by rw [hpk]; omega), Or.inr ⟨hphi, rootpick⟩⟩
+      intro f hfN hfu
+      by_cases hcf : (g.node f).cls = (g.node c).cls
+      · right
+        have hfl := (unexpl_flat g s f hfu).1
+        have : c = f := hz.clsUniq f c hfN hcN hfl hcf.symm
+        refine ⟨?_, ?_⟩
+        · rw [hp]; simp only [List.length_append, List.length_singleton]
+          have := List.length_pos_iff.mpr hne; omega
+        · rw [← this]
+          exact top_of_last _ w c (by rw [hp]; simp)
+      · rcases h.low f hfN hfu with h1 | h1
+        · left; rw [hpk]; simp only [hcf, if_false]; exact h1
+        · exact absurd h1 (np f hfN hfu)
+    | pop next hl hlen hp hD hk hnew hpk =>
+      refine ⟨k, base hwalk2 (by rw [hp, head?_dropLast' _ hlen]; exact h.head) ?_ ?_,
+        by rw [psi_congr g s _ P hpk]; exact Nat.le_refl _, Or.inr ⟨hphi, rootpick⟩⟩
+      · intro f hfN hfu
+        cases hdx : dropped (iter (vis g s) s w).1 w (false, (g.node g.root).cls, (g.node f).cls)
+        · rfl
+        · exfalso
+          rcases hnew _ hdx with h0 | ⟨_, hcls⟩
+          · rw [h.avail f hfN hfu] at h0; cases h0
+          · simp only at hcls
+            have hnN : next < g.nodes.length := walk_top_lt g d _ next h.walk hl hlen
+            have hfl := (unexpl_flat g s f hfu).1
+            have : next = f := hz.clsUniq f next hfN hnN hfl hcls.symm
+            exact np f hfN hfu ⟨hlen, by rw [← this]; exact top_of_last s w next hl⟩
+      · intro f hfN hfu
+        rcases h.low f hfN hfu with h1 | h1
+        · left; rw [hpk]; exact h1
+        · exact absurd h1 (np f hfN hfu)
+  · -- the postponement jump
+    refine ⟨k, base (by rw [j.path]; exact walk_root g d g.root) (by rw [j.path]; rfl)
+      (fun f hfN hfu => by rw [j.dropped]; exact h.avail f hfN hfu) ?_,
+      by rw [psi_congr g s _ P j.picks]; exact Nat.le_refl _, Or.inl ⟨j.flag, j.len, j.path, psi_congr g s _ P j.picks⟩⟩
+    intro f hfN hfu
+    rcases h.low f hfN hfu with h1 | h1
+    · left; rw [j.picks]; exact h1
+    · exact absurd h1 (np f hfN hfu)
+
+
+theorem chi_root (g : Graph) (s : State) (w : Nat) (h : (s.wd w).path = [g.root]) : chi g s w = 0 := by
+  unfold chi; simp [h]
+
+theorem chi_zero (g : Graph) (s : State) (w : Nat) (h : nU g s = 0) : chi g s w = 0 := by
+  unfold chi; simp [h]
+
+theorem chi_one (g : Graph) (s : State) (w : Nat) (h1 : 0 < nU g s) (h2 : (s.wd w).path ≠ [g.root]) : chi g s w = 1 := by
+  unfold chi; simp [h1, h2]
+
+/-- the expansion step followed by the iteration proper lowers the measure -/
+theorem mu_step (g : Graph) (d : Nat → Nat) (hr : Ranked g d) (w P : Nat) (s0 s1 s2 : State)
+    (hpath01 : (s1.wd w).path = (s0.wd w).path) (hregs01 : s1.regs = s0.regs)
+    (hnU01 : nU g s1 ≤ nU g s0) (hpend0 : pendB g s0 w = true → nU g s1 < nU g s0)
+    (hnU12 : nU g s2 = nU g s1) (hwalk2 : Walk g d (s2.wd w).path)
+    (hpsi : psi g s2 P ≤ psi g s1 P)
+    (hflag : (s1.wd w).unexplored = true → 2 ≤ (s1.wd w).path.length → 0 < nU g s0)
+    (hout : ((s1.wd w).unexplored = true ∧ 2 ≤ (s1.wd w).path.length ∧ (s2.wd w).path = [g.root] ∧
+        psi g s2 P = psi g s1 P) ∨
+      (phi g s2 w < phi g s1 w ∧ ((s1.wd w).path.length = 1 → 0 < nU g s1 → psi g s2 P < psi g s1 P))) :
+    mu g s2 w P < mu g s0 w P := by
+  have hpsi01 : psi g s1 P = psi g s0 P := psi_congr g s0 s1 P (fun c => picks_of_regs s0 s1 hregs01 c)
+  have hphi01 : phi g s1 w = phi g s0 w := phi_congr g s0 s1 w hregs01 hpath01
+  have hp2 : pend g s2 w ≤ 1 := by unfold pend; split <;> omega
+  have hp2' : pend g s2 w = 1 → 0 < nU g s2 := by
+    intro hx; unfold pend at hx
+    split at hx
+    · rename_i hb; exact nU_pos_of_pend g s2 w hb
+    · cases hx
+  have hp0 : (pend g s0 w = 1 ∧ pendB g s0 w = true) ∨ (pend g s0 w = 0 ∧ pendB g s0 w = false) := by
+    unfold pend; cases pendB g s0 w <;> simp
+  -- what equality of the first components means
+  have hAeq : 2 * nU g s2 - pend g s2 w = 2 * nU g s0 - pend g s0 w →
+      pendB g s0 w = false ∧ nU g s2 = nU g s0 ∧ nU g s1 = nU g s0 := by
+    intro he
+    rcases hp0 with ⟨h1, h2⟩ | ⟨h1, h2⟩
+    · have := hpend0 h2; omega
+    · refine ⟨h2, ?_, ?_⟩
+      · by_cases hx : pend g s2 w = 1
+        · have := hp2' hx; omega
+        · omega
+      · by_cases hx : pend g s2 w = 1
+        · have := hp2' hx; omega
+        · omega
+  unfold mu
+  apply lex4_lt
+  · have := psi_le g s2 P; omega
+  · exact chi_le g s2 w
+  · exact phi_lt_bound g d hr s2 w hwalk2
+  · rcases hp0 with ⟨h1, h2⟩ | ⟨h1, h2⟩
+    · have := hpend0 h2; omega
+    · omega
+  · intro _; omega
+  · intro he hpe
+    obtain ⟨_, hn20, hn10⟩ := hAeq he
+    rcases hout with ⟨_, _, hp2r, _⟩ | ⟨_, hrp⟩
+    · rw [chi_root g s2 w hp2r]; omega
+    · by_cases hz0 : nU g s0 = 0
+      · rw [chi_zero g s2 w (by omega)]; omega
+      · by_cases hroot : (s0.wd w).path = [g.root]
+        · have := hrp (by rw [hpath01, hroot]; rfl) (by omega)
+          omega
+        · rw [chi_one g s0 w (by omega) hroot]
+          have := chi_le g s2 w
+          omega
+  · intro he hpe hce
+    rcases hout with ⟨hfl, hlen, hp2r, _⟩ | ⟨hphi, _⟩
+    · exfalso
+      have h1 := hflag hfl hlen
+      have hroot : (s0.wd w).path ≠ [g.root] := by
+        intro hx; rw [hpath01, hx] at hlen; simp at hlen
+      rw [chi_root g s2 w hp2r, chi_one g s0 w h1 hroot] at hce
+      cases hce
+    · omega
+
+/-- the invariant after the expansion step -/
+theorem linv_prepare (g : Graph) (d : Nat → Nat) (hz : LazyOK g) (w P : Nat) (s : State) (h : LInv g d w P s)
+    (hw : w < s.workers.length) (hne : (s.wd w).path ≠ []) :
+    LInv g d w P (prepare g s w) ∧ pendB g (prepare g s w) w = false ∧ nU g (prepare g s w) ≤ nU g s ∧
+    (pendB g s w = true → nU g (prepare g s w) < nU g s) ∧
+    (((prepare g s w).wd w).unexplored = true → 0 < nU g s) := by
+  obtain ⟨p1, p2, p3, p4, p5, p6, p7, p8⟩ := prepare_lazy g hz.kids s w hw hne
+  have htop : top (prepare g s w) w = top s w := by unfold top; rw [p4]
+  have hsub : ∀ x, (prepare g s w).hidden.contains x = true → s.hidden.contains x = true := by
+    intro x hx
+    rw [List.contains_iff_mem] at hx ⊢
+    exact p6 x hx
+  have hnc : ∀ x, s.hidden.contains x = false → (prepare g s w).hidden.contains x = false := by
+    intro x hx
+    cases hc : (prepare g s w).hidden.contains x
+    · rfl
+    · rw [hsub x hc] at hx; cases hx
+  have hmono : ∀ f, unexpl g (prepare g s w) f = true → unexpl g s f = true := unexpl_mono g s _ p6 p7
+  have hlast := last_of_top s w hne
+  have hexp : pendB g s w = true → unexpl g (prepare g s w) (top s w) = false := by
+    intro hb
+    unfold pendB at hb
+    simp only [Bool.and_eq_true, decide_eq_true_eq] at hb
+    exact p8 (top s w) hlast hb.2.1 hb.2.2 (h.vflat _ (unexpl_flat g s _ hb.2.2).1)
+  refine ⟨⟨by rw [p2]; exact h.nodesLen, fun n hn => by rw [p1]; exact h.cls n hn, by rw [p4]; exact h.walk,
+    by rw [p4]; exact h.head, hnc _ h.vroot, fun f hf => hnc _ (h.vflat f hf), ?_, ?_⟩, ?_, nU_mono g s _ p6 p7, ?_, ?_⟩
+  · intro f hfN hfu
+    rw [dropped_of_regs s _ p1]
+    exact h.avail f hfN (hmono f hfu)
+  · intro f hfN hfu
+    rw [picks_of_regs s _ p1, p4, htop]
+    exact h.low f hfN (hmono f hfu)
+  · -- nothing is pending after the step
+    cases hb : pendB g (prepare g s w) w
+    · rfl
+    · exfalso
+      unfold pendB at hb
+      simp only [Bool.and_eq_true, decide_eq_true_eq] at hb
+      rw [htop, p4] at hb
+      have hb0 : pendB g s w = true := by
+        unfold pendB
+        simp only [Bool.and_eq_true, decide_eq_true_eq]
+        exact ⟨hb.1, hb.2.1, hmono _ hb.2.2⟩
+      rw [hexp hb0] at hb
+      cases hb.2.2
+  · intro hb
+    have hb' := hb
+    unfold pendB at hb'
+    simp only [Bool.and_eq_true, decide_eq_true_eq] at hb'
+    exact nU_lt g s _ p6 p7 (top s w) hb'.2.1 hb'.2.2 (hexp hb)
+  · intro hfl
+    rw [p5] at hfl
+    unfold nU
+    cases hq : unexploredNodes (vis g s) s with
+    | nil => rw [hq] at hfl; simp at hfl
+    | cons _ _ => simp
+
+/-- **one `.cont` iteration on a lazily expanded graph** lowers the measure `mu` and keeps the invariant -/
+theorem iterL_lazy (g : Graph) (d : Nat → Nat) (hr : Ranked g d) (hsym : EdgeSym g) (hz : LazyOK g) (w P : Nat)
+    (s : State) (h : LInv g d w P s) (hc : (iterL g s w).2.2 = .cont) :
+    mu g (iterL g s w).1 w P < mu g s w P ∧ LInv g d w P (iterL g s w).1 := by
+  have hne : (s.wd w).path ≠ [] := by intro h0; have := h.head; rw [h0] at this; simp at this
+  have hw : w < s.workers.length := lt_of_path_ne_nil s w hne
+  unfold iterL at hc ⊢
+  split at hc
+  · rename_i hcond
+    simp only [hcond, if_true]
+    have hlen : (s.wd w).path.length < 2 := by
+      by_cases h2 : 2 ≤ (s.wd w).path.length
+      · exfalso
+        have : isCleanupReady (vis g s) s (vis g s).root w = true := by
+          rw [vis_root]
+          simp only [Bool.or_eq_true, decide_eq_true_eq] at hcond
+          rcases hcond with h0 | h0
+          · exact h0
+          · omega
+        exact iter_rootReady _ s w this hc
+      · omega
+    obtain ⟨k, hl2, hpsi, hout⟩ := iter_lazy g d hr hsym hz w P s h (pendB_false_of_len g s w hlen) hc
+    refine ⟨mu_step g d hr w P s s _ rfl rfl (Nat.le_refl _) (fun hb => ?_) (nU_congr g s _ k.hidden k.incompatible)
+      hl2.walk hpsi (fun _ h2 => by omega) hout, hl2⟩
+    rw [pendB_false_of_len g s w hlen] at hb; cases hb
+  · rename_i hcond
+    simp only [hcond, Bool.false_eq_true, if_false]
+    dsimp only at hc ⊢
+    obtain ⟨l1, q1, q2, q3, q4⟩ := linv_prepare g d hz w P s h hw hne
+    obtain ⟨p1, _, _, p4, _⟩ := prepare_lazy g hz.kids s w hw hne
+    obtain ⟨k, hl2, hpsi, hout⟩ := iter_lazy g d hr hsym hz w P (prepare g s w) l1 q1 hc
+    exact ⟨mu_step g d hr w P s (prepare g s w) _ (p4 w) p1 q2 q3
+      (nU_congr g (prepare g s w) _ k.hidden k.incompatible) hl2.walk hpsi (fun hfl _ => q4 hfl) hout, hl2⟩
+
+
+
+/-! ### the loop on lazily expanded graphs -/
+
+theorem linv_setLoop {g : Graph} {d : Nat → Nat} {w P : Nat} {s : State} (h : LInv g d w P s) :
+    LInv g d w P (s.setWd w (fun d => { d with pc := .loop })) ∧
+      mu g (s.setWd w (fun d => { d with pc := .loop })) w P = mu g s w P := by
+  have hp : ((s.setWd w (fun d => { d with pc := .loop })).wd w).path = (s.wd w).path :=
+    wd_setWd_proj (·.path) s w (fun d => { d with pc := .loop }) (fun _ => rfl) w
+  have htop : top (s.setWd w (fun d => { d with pc := .loop })) w = top s w := by unfold top; rw [hp]
+  have hun : ∀ f, unexpl g (s.setWd w (fun d => { d with pc := .loop })) f = unexpl g s f :=
+    fun f => unexpl_congr g s _ rfl rfl f
+  have hnU : nU g (s.setWd w (fun d => { d with pc := .loop })) = nU g s := nU_congr g s _ rfl rfl
+  refine ⟨⟨h.nodesLen, h.cls, by rw [hp]; exact h.walk, by rw [hp]; exact h.head, h.vroot, h.vflat, ?_, ?_⟩, ?_⟩
+  · intro f hfN hfu
+    rw [dropped_setWd]; exact h.avail f hfN (by rw [← hun]; exact hfu)
+  · intro f hfN hfu
+    rw [picks_setWd, hp, htop]; exact h.low f hfN (by rw [← hun]; exact hfu)
+  · have hpend : pend g (s.setWd w (fun d => { d with pc := .loop })) w = pend g s w := by
+      unfold pend pendB; rw [hp, htop, hun]
+    have hpsi : psi g (s.setWd w (fun d => { d with pc := .loop })) P = psi g s P := psi_congr g s _ P (fun _ => rfl)
+    have hchi : chi g (s.setWd w (fun d => { d with pc := .loop })) w = chi g s w := by
+      unfold chi; rw [hnU, hp]
+    unfold mu
+    rw [hnU, hpend, hpsi, hchi, phi_congr g s (s.setWd w (fun d => { d with pc := .loop })) w rfl hp]
+
+/-- with more fuel than the measure the loop ends by itself, also while flat nodes are unexplored -/
+theorem runLoopO_lazy (g : Graph) (d : Nat → Nat) (hr : Ranked g d) (hsym : EdgeSym g) (hz : LazyOK g) (w P : Nat)
+    (fuel : Nat) (s : State) (evs : List Event) (h : LInv g d w P s) (hf : mu g s w P < fuel) :
+    (runLoopO g w fuel s evs).isSome = true := by
+  induction fuel generalizing s evs with
+  | zero => omega
+  | succ fuel ih =>
+    unfold runLoopO
+    dsimp only
+    obtain ⟨h0, hm0⟩ := linv_setLoop h
+    split
+    · next s1 e heq =>
+      have hc : (iterL g (s.setWd w (fun d => { d with pc := .loop })) w).2.2 = .cont := by rw [heq]
+      obtain ⟨h1, h2⟩ := iterL_lazy g d hr hsym hz w P _ h0 hc
+      rw [heq] at h1 h2
+      exact ih s1 _ h2 (by dsimp only at h1; omega)
+    · rfl
+    · rfl
+    · rfl
+
+/-- explicit bound for a level `P` of the pick counters -/
+def lazyBound (g : Graph) (P : Nat) : Nat :=
+  ((2 * g.nodes.length * ((rootKids g).length * P + 1) + (rootKids g).length * P) * 2 + 2) * bound g
+
+theorem nU_le (g : Graph) (s : State) : nU g s ≤ g.nodes.length := by
+  unfold nU
+  rw [unexploredNodes_eq]
+  have := List.length_filter_le (unexpl g s) (List.range g.nodes.length)
+  simpa using this
+
+theorem mu_lt_lazyBound (g : Graph) (d : Nat → Nat) (hr : Ranked g d) (w P : Nat) (s : State)
+    (hwalk : Walk g d (s.wd w).path) : mu g s w P < lazyBound g P := by
+  unfold mu lazyBound
+  have h1 := nU_le g s
+  have h2 := psi_le g s P
+  have h3 := chi_le g s w
+  have h4 := phi_lt_bound g d hr s w hwalk
+  have hA : (2 * nU g s - pend g s w) * ((rootKids g).length * P + 1) ≤
+      2 * g.nodes.length * ((rootKids g).length * P + 1) := Nat.mul_le_mul_right _ (by omega)
+  have hX : ((2 * nU g s - pend g s w) * ((rootKids g).length * P + 1) + psi g s P) * 2 + chi g s w + 1 ≤
+      (2 * g.nodes.length * ((rootKids g).length * P + 1) + (rootKids g).length * P) * 2 + 2 := by omega
+  have hB := Nat.mul_le_mul_right (bound g) hX
+  rw [Nat.add_mul, Nat.one_mul] at hB
+  omega
+
+/-- a level above all pick counters -/
+def pickLevel (g : Graph) (s : State) : Nat := 1 + ((List.range g.nodes.length).map (fun f => picks s (g.node f).cls)).sum
+
+theorem le_sum_of_mem (l : List Nat) (F : Nat → Nat) (a : Nat) (ha : a ∈ l) : F a ≤ (l.map F).sum := by
+  induction l with
+  | nil => simp at ha
+  | cons b r ih =>
+    simp only [List.map_cons, List.sum_cons]
+    rcases List.mem_cons.mp ha with h | h
+    · subst h; omega
+    · have := ih h; omega
+
+/-- the state hypotheses for lazily expanded graphs (everything in `LInv` but the level, which can always be chosen) -/
+structure LState (g : Graph) (d : Nat → Nat) (w : Nat) (s : State) : Prop where
+  nodesLen : s.nodes.length = g.nodes.length
+  cls : ClsOK g s
+  walk : Walk g d (s.wd w).path
+  head : (s.wd w).path.head? = some g.root
+  vroot : s.hidden.contains g.root = false
+  vflat : ∀ f, (g.node f).flat = true → s.hidden.contains f = false
+  avail : ∀ f, f < g.nodes.length → unexpl g s f = true →
+    dropped s w (false, (g.node g.root).cls, (g.node f).cls) = false
+
+theorem LState.linv {g : Graph} {d : Nat → Nat} {w : Nat} {s : State} (h : LState g d w s) :
+    LInv g d w (pickLevel g s) s :=
+  ⟨h.nodesLen, h.cls, h.walk, h.head, h.vroot, h.vflat, h.avail, fun f hfN _ => Or.inl (by
+    unfold pickLevel
+    have := le_sum_of_mem (List.range g.nodes.length) (fun f => picks s (g.node f).cls) f (List.mem_range.mpr hfN)
+    omega)⟩
+
+/-- **Termination between two suspension points on lazily expanded graphs** (no `Explored` hypothesis): the loop ends
+by itself within `lazyBound g (pickLevel g s)` iterations -/
+theorem runLoop_terminates_lazy (g : Graph) (d : Nat → Nat) (hr : Ranked g d) (hsym : EdgeSym g) (hz : LazyOK g) (w : Nat)
+    (s : State) (evs : List Event) (h : LState g d w s) (fuel : Nat) (hf : lazyBound g (pickLevel g s) ≤ fuel) :
+    ∃ r, runLoopO g w (lazyBound g (pickLevel g s)) s evs = some r ∧ runLoop g w fuel s evs = r := by
+  have hs := runLoopO_lazy g d hr hsym hz w (pickLevel g s) (lazyBound g (pickLevel g s)) s evs h.linv
+    (mu_lt_lazyBound g d hr w _ s h.walk)
+  obtain ⟨r, hr'⟩ := Option.isSome_iff_exists.mp hs
+  exact ⟨r, hr', runLoop_of_runLoopO g w _ s evs r hr' fuel hf⟩
+
+/-- the initial state of a lazily expanded graph whose flat nodes and root are parsed -/
+theorem lstate_init (g : Graph) (d : Nat → Nat) (ncls : Nat) (store : List (String × List (String × String)))
+    (hidden : List Nat) (hcls : ∀ n, n < g.nodes.length → (g.node n).cls < ncls)
+    (hroot : hidden.contains g.root = false) (hflat : ∀ f, (g.node f).flat = true → hidden.contains f = false)
+    (w : Nat) (hw : w < g.workers.length) : LState g d w (initState g ncls store hidden) := by
+  have hwd : (initState g ncls store hidden).wd w = { path := [g.root] } := by
+    unfold initState State.wd
+    simp only [List.getD_eq_getElem?_getD, List.getElem?_map, List.getElem?_eq_getElem hw]
+    rfl
+  refine ⟨by simp [initState], clsOK_init g ncls store hidden hcls, by rw [hwd]; exact walk_root g d g.root,
+    by rw [hwd]; rfl, hroot, hflat, ?_⟩
+  intro f _ _
+  unfold dropped State.cr initState
+  simp only [Bool.false_eq_true, if_false, List.getD_eq_getElem?_getD, List.getElem?_map]
+  cases (List.range ncls)[(g.node g.root).cls]? <;> rfl
+
+
 end I2N.Trav.Term
